@@ -132,6 +132,10 @@ struct Writer {
 
     /// The number of bytes that have been written to the currently active file.
     written_bytes: u64,
+
+    /// IDs of the files that were written by a merge which failed before it could synchronize
+    /// them to disk. Entries in the KeyDir may point into them.
+    unsynced_merge_fileids: Vec<u64>,
 }
 
 /// The reader reads log entries from data files given the locations found in KeyDir. Since data files
@@ -186,6 +190,7 @@ impl Bitcask {
             ))?)?,
             active_fileid,
             written_bytes: 0,
+            unsynced_merge_fileids: Vec::new(),
         }));
 
         let handle = Handle {
@@ -575,8 +580,28 @@ impl Writer {
     /// Copy data from files that are included for merging. Once finish, copied files are deleted.
     #[tracing::instrument(level = "debug", skip(self))]
     fn merge(&mut self) -> Result<(), Error> {
-        let mut merge_fileid = self.active_fileid + 1;
+        // A merge that failed may have left files behind that hold the current copy of some values
+        // without having synchronized them to disk. Nothing may be removed while that is so, the
+        // files that this merge removes could hold the only durable copies of those values.
+        while let Some(fileid) = self.unsynced_merge_fileids.last().copied() {
+            let path = self.ctx.conf.path.as_path();
+            for name in [utils::datafile_name(path, fileid), utils::hintfile_name(path, fileid)] {
+                match fs::File::open(name) {
+                    Ok(file) => file.sync_all()?,
+                    Err(e) if e.kind() == io::ErrorKind::NotFound => {}
+                    Err(e) => return Err(e.into()),
+                }
+            }
+            self.unsynced_merge_fileids.pop();
+        }
+
+        let first_merge_fileid = self.active_fileid + 1;
+        let mut merge_fileid = first_merge_fileid;
         let result = self.merge_files(&mut merge_fileid);
+        if result.is_err() {
+            self.unsynced_merge_fileids
+                .extend(first_merge_fileid..=merge_fileid);
+        }
         if result.is_err() && self.active_fileid <= merge_fileid {
             // Files with IDs up to `merge_fileid` may have been created. Entries that are written
             // from now on must go to a file above them to take precedence over the merged copies
